@@ -70,8 +70,14 @@ fn rename_locals(text: &str) -> String {
                 }
                 let w: String = cs[st..i].iter().collect();
                 let prev_dot = st > 0 && cs[st - 1] == '.';
+                // `S { name: .. }` names a field, not the local (but `name::` is a path and `a ? name : b` does not occur)
+                let mut k = i;
+                while k < cs.len() && cs[k] == ' ' {
+                    k += 1;
+                }
+                let field_init = k < cs.len() && cs[k] == ':' && !(k + 1 < cs.len() && cs[k + 1] == ':');
                 match r.iter().find(|(a, _)| *a == w) {
-                    Some((_, b)) if !prev_dot => out.push_str(b),
+                    Some((_, b)) if !prev_dot && !field_init => out.push_str(b),
                     _ => out.push_str(&w),
                 }
             } else {
@@ -467,7 +473,9 @@ impl<'a> Emitter<'a> {
                 continue;
             }
             if let Some(rest) = t.strip_prefix("__vx_loop!(") {
-                let n: usize = rest.trim_end_matches(");").parse().unwrap();
+                let args: Vec<&str> = rest.trim_end_matches(");").split(',').map(|x| x.trim()).collect();
+                let n: usize = args[0].parse().unwrap();
+                let by_ordinal = args.get(1).map(|x| *x == "1").unwrap_or(false);
                 let f = cur_fn.expect("loop marker outside fn");
                 // header = previous line ending with `{`
                 let mut k = out.len();
@@ -494,7 +502,7 @@ impl<'a> Emitter<'a> {
                 }
                 let k = out.len() - 1;
                 let tail: Vec<String> = out.drain(k + 1..).collect();
-                out.push(format!("{}    // @loop {}", hindent, n));
+                out.push(format!("{}    // @loop {}{}", hindent, n, if by_ordinal { " (by ordinal)" } else { "" }));
                 if let Some(ls) = f.spec.loops.get(&n) {
                     self.render_clauses("invariant_except_break", &ls.invariant_except_break, &format!("{}    ", hindent), &mut out, &f.poolstr);
                     self.render_clauses("invariant", &ls.invariant, &format!("{}    ", hindent), &mut out, &f.poolstr);
@@ -521,6 +529,7 @@ impl<'a> Emitter<'a> {
         // 3. assemble
         let mut text: Vec<String> = vec![];
         text.push(format!("// GENERATED by vx (unit {}, variant {}) from the current /repo tree — do not edit.", self.u.name, self.variant));
+        text.push("#![feature(allocator_api)]".to_string());
         text.push("#![allow(unused_imports, unused_variables, unused_mut, dead_code, unused_assignments, unreachable_code, non_snake_case, unused_parens, unused_braces)]".to_string());
         text.push("use vstd::prelude::*;".to_string());
         text.push("use std::collections::VecDeque;".to_string());
@@ -589,7 +598,7 @@ impl<'a> Emitter<'a> {
                 .map(|l| json_str(&l))
                 .collect();
             fninfo.push(format!(
-                "{}: {{\"src\": {}, \"lines\": [{}, {}], \"labels\": [{}], \"keys\": [{}], \"props\": [{}]}}",
+                "{}: {{\"src\": {}, \"lines\": [{}, {}], \"labels\": [{}], \"keys\": [{}], \"props\": [{}], \"anchors\": {}}}",
                 json_str(&f.id),
                 json_str(&f.src_path),
                 f.line_start,
@@ -597,6 +606,7 @@ impl<'a> Emitter<'a> {
                 lab.join(", "),
                 f.keys.iter().map(|k| json_str(k)).collect::<Vec<_>>().join(", "),
                 f.spec.props.iter().map(|k| json_str(k)).collect::<Vec<_>>().join(", "),
+                f.spec.before.len() + f.spec.after.len(),
             ));
         }
         let map = format!(
